@@ -574,6 +574,9 @@ var cookedScripts = []script{
 	{kRep, []op{{k: "opt", a: 0, b: 0, c: 3}, {k: "addpipe"}, {k: "recv", a: 0}, {k: "req", a: 1, b: 3}, {k: "req", a: 1, b: 2}, {k: "send", a: 0}}},
 	{kRespondent, []op{{k: "opt", a: 0, b: 0, c: 2}, {k: "addpipe"}, {k: "req", a: 1, b: 2}, {k: "req", a: 1, b: 1}, {k: "req", a: 1, b: -2}, {k: "recv", a: 0},
 		{k: "send", a: 0}, {k: "recv", a: 0}}},
+	// a raised hop limit: a request that crossed 10 connections (a routing header of 44 bytes) is answered with its whole header
+	{kRep, []op{{k: "opt", a: 0, b: 0, c: 12}, {k: "addpipe"}, {k: "req", a: 1, b: 10}, {k: "recv", a: 0}, {k: "send", a: 0}, {k: "req", a: 1, b: 9}, {k: "recv", a: 0}, {k: "send", a: 0}}},
+	{kRespondent, []op{{k: "opt", a: 0, b: 0, c: 12}, {k: "addpipe"}, {k: "req", a: 1, b: 10}, {k: "recv", a: 0}, {k: "send", a: 0}, {k: "req", a: 1, b: 8}, {k: "recv", a: 0}, {k: "send", a: 0}}},
 	// REP keeps the request while a later Recv waits; RESPONDENT forgets it
 	{kRep, []op{{k: "addpipe"}, {k: "req", a: 1, b: 0}, {k: "recv", a: 0}, {k: "recv", a: 0}, {k: "recv", a: 0}, {k: "send", a: 0}, {k: "req", a: 1, b: 1},
 		{k: "send", a: 0}}},
@@ -602,6 +605,8 @@ var rawScripts = []script{
 	{kXRespondent, []op{{k: "opt", b: 1, c: 0}, {k: "addpipe"}, {k: "hold", a: 1, b: 1}, {k: "req", a: 1, b: 0}, {k: "recv"}, {k: "send", b: 0}, {k: "send", b: 0},
 		{k: "drop", a: 1}, {k: "send", b: 0}}},
 	// hop limit in raw mode; the pipe id is put in front of the header
+	{kXRep, []op{{k: "opt", b: 0, c: 12}, {k: "addpipe"}, {k: "req", a: 1, b: 10}, {k: "recv"}, {k: "send", b: 0}}},
+	{kXRespondent, []op{{k: "opt", b: 0, c: 12}, {k: "addpipe"}, {k: "req", a: 1, b: 10}, {k: "recv"}, {k: "send", b: 0}}},
 	{kXRep, []op{{k: "opt", b: 0, c: 2}, {k: "addpipe"}, {k: "req", a: 1, b: 2}, {k: "req", a: 1, b: 1}, {k: "recv"}, {k: "send", b: 0}, {k: "recv"}}},
 	{kXRespondent, []op{{k: "opt", b: 0, c: 2}, {k: "addpipe"}, {k: "req", a: 1, b: 2}, {k: "req", a: 1, b: 1}, {k: "req", a: 1, b: -1}, {k: "recv"}, {k: "send", b: 0}, {k: "recv"}}},
 	// a reply re-addressed to the other pipe goes there (the application owns the header in raw mode)
